@@ -5,3 +5,4 @@ import FsVerif.Model.BufStore
 import FsVerif.Model.PrioReq
 import FsVerif.Model.Node.Source
 import FsVerif.Model.Node.Machine
+import FsVerif.Model.Config
